@@ -967,6 +967,25 @@ def make_libs(I):
             return os.path.basename(a[0])
         return opaque_str(I, 'basename')
 
+    @reg('scipy.stats.gmean')
+    def _gmean(I, a, k):
+        return I.np.col_stat('gmean', a[0], k.get('axis', a[1] if len(a) > 1 else 0))
+
+    @reg('scipy.stats.mode')
+    def _mode(I, a, k):
+        # result object: [0] are the modal values; whether the reduced axis is kept depends on the installed scipy
+        m = I.np.col_stat('mode', a[0], k.get('axis', a[1] if len(a) > 1 else 0))
+        keep = I.envfacts.get('scipy_mode_result_ndim_2d_input', 1) == 2
+        if keep:
+            if isinstance(m, NDArr):
+                f = m.fn
+                m = I.np.finish([1] + list(m.shape), 'float', lambda r, *rest, f=f: f(*rest), [m])
+            else:
+                e = I.z(m, 'real')
+                m = I.np.new([1], 'float', lambda r, e=e: e)
+        I.ctx.use_axiom('A-LIB:scipy.stats.mode result layout as measured on the installed scipy (envfacts)')
+        return stamp(Seq('tuple', [m, Opaque('mode_counts')]))
+
     L['collections.abc.Iterable'] = Opaque('abc', 'Iterable')
     L['collections.Iterable'] = Opaque('abc', 'Iterable')
     L['datetime.datetime'] = Opaque('datetime.datetime.class')
